@@ -112,7 +112,7 @@ def dispatch_table(ctx: Ctx, impl: Func) -> dict:
 
     for n in ast.walk(impl.node):
         if isinstance(n, ast.If):
-            tt = norm(X.at(impl, n.test))
+            tt = norm(X.value_at(impl, n.test))
             keys = []
             for s in subterms(tt) if tt[0] == "bool" else [tt]:
                 if s[0] == "cmp" and s[1] == "==" and (s[3][0] == "const" or s[2][0] == "const"):
